@@ -27,3 +27,6 @@ func VerifStreamMsg(s *Stream) base.RtmpMsg {
 
 // VerifHandleConn is Server.handleTcpConnect.
 func VerifHandleConn(s *Server, conn net.Conn) { s.handleTcpConnect(conn) }
+
+// VerifSetWChanSize sets the server-session write queue size (0 = synchronous writes).
+func VerifSetWChanSize(n int) { wChanSize = n }
